@@ -278,28 +278,32 @@ func Main(cfg Config) {
 	r.Rule = cfg.Rule
 	r.Assumptions = cfg.Assumptions
 	var items []workItem
-	for i, s := range scs {
-		n := s.Shards
-		if n < 1 {
-			n = 1
+	shards := func(s *Scenario) int {
+		if s.Shards < 1 {
+			return 1
 		}
-		for k := 0; k < n; k++ {
-			if s.Unbounded || s.Bound < 1 {
-				continue
-			}
-			items = append(items, workItem{i, k, 0, s.Bound - 1})
-		}
+		return s.Shards
 	}
-	// second phase: everybody's deepest level (and the unbounded explorations), in the time that is left
+	// first the explorations that cannot be cut into levels (default schedule only, or all interleavings: these
+	// are the small spaces by design), then every bounded scenario's lower levels, and in the time that is left
+	// everybody's deepest level: when the budget runs out, every scenario has been covered to the same depth
 	for i, s := range scs {
-		n := s.Shards
-		if n < 1 {
-			n = 1
-		}
-		for k := 0; k < n; k++ {
+		for k := 0; k < shards(s); k++ {
 			if s.Unbounded || s.Bound < 1 {
 				items = append(items, workItem{i, k, 0, Infinite})
-			} else {
+			}
+		}
+	}
+	for i, s := range scs {
+		for k := 0; k < shards(s); k++ {
+			if !(s.Unbounded || s.Bound < 1) {
+				items = append(items, workItem{i, k, 0, s.Bound - 1})
+			}
+		}
+	}
+	for i, s := range scs {
+		for k := 0; k < shards(s); k++ {
+			if !(s.Unbounded || s.Bound < 1) {
 				items = append(items, workItem{i, k, s.Bound, s.Bound})
 			}
 		}
